@@ -100,6 +100,13 @@ def run(ctx):
     bad = [s for s in merges if s.st.facts.get("tunnel_required", (None, None))[0] is not False]
     ctx.ob(R3, pfi.qual, f"proxy headers merged only with tunnel-required false ({len(merges)} paths)", not bad,
            "" if not bad else "proxy credentials are added to a request that travels inside the tunnel to the origin", witness=bad[0].st.witness() if bad else None, node=pfi.node)
+    for which_, (r_, f_, o_) in (("pool", (prule, pfi, pouts)), ("manager", resend.analyse(ctx, "manager"))):
+        muts = [s for s in r_.sites if s.kind == "mutate-uncopied"]
+        ctx.ob(R3, f_.qual, "the caller's header mapping is never modified in place (proxy headers are merged into a private copy)", not muts,
+               "" if not muts else f"`{astq.text(muts[0].node)[:60]}` edits the mapping the caller (PoolManager's redirect loop, or the application) keeps using: proxy headers merged for a forwarded hop travel on into a later tunnelled hop",
+               witness=muts[0].st.witness() if muts else None, node=muts[0].node if muts else f_.node)
+    uncopied = [s for s in merges if "copy" not in s.args["into"].tags]
+    ctx.ob(R3, pfi.qual, "every merge of proxy headers goes into a fresh copy", not uncopied, witness=uncopied[0].st.witness() if uncopied else None, node=pfi.node)
     # the request step on tunnel paths carries headers without proxy headers
     reqs = [s for s in prule.sites if s.kind == "request"]
     leak = None
